@@ -30,7 +30,6 @@ pub mod c01_pool;
 pub mod c02_jumps;
 pub mod c02_args;
 pub mod qk;
-pub mod c03_tiny;
 pub mod c04_action;
 pub mod c04_map;
 pub mod c06_remap;
@@ -50,7 +49,6 @@ pub fn all() -> Vec<(&'static str, fn())> {
 	v.extend_from_slice(c01_pool::LIST);
 	v.extend_from_slice(c02_jumps::LIST);
 	v.extend_from_slice(c02_args::LIST);
-	v.extend_from_slice(c03_tiny::LIST);
 	v.extend_from_slice(c04_action::LIST);
 	v.extend_from_slice(c04_map::LIST);
 	v.extend_from_slice(c06_remap::LIST);
@@ -58,7 +56,6 @@ pub fn all() -> Vec<(&'static str, fn())> {
 	v.extend_from_slice(c09_kernels::LIST);
 	v.extend_from_slice(c11_inner::LIST);
 	v.extend_from_slice(c14_nest::LIST);
-	v.extend_from_slice(c14_nest::translate_proofs::LIST);
 	v.extend_from_slice(c13_merge::LIST);
 	v.extend_from_slice(c16_code::LIST);
 	v.extend_from_slice(c18_desc::LIST);
